@@ -23,27 +23,45 @@ PROP = 'C03'
 
 
 def discover(prog):
+    """the eliminator = the self-recursive function of the module that the
+    entry calls; the quantified-formula checker = the other function of the
+    module that delegates to a `modelcheck` of another logic (both found
+    through the call graph, not by name)"""
     mod = prog.module('CTLS.model_checking')
     entry = prog.func('CTLS.model_checking.modelcheck')
-    elim = None
-    for n in ast.walk(entry.node):
-        if isinstance(n, ast.Call) and isinstance(n.func, ast.Name) and \
-                n.func.id in mod.funcs:
-            elim = mod.funcs[n.func.id]
-    if elim is None:
-        raise Inconclusive('R-CTLS-1', 'eliminator not found', entry.where())
-    quant = None
-    for n in ast.walk(elim.node):
-        if isinstance(n, ast.Call) and isinstance(n.func, ast.Name) and \
-                n.func.id in mod.funcs and mod.funcs[n.func.id] is not elim:
-            f = mod.funcs[n.func.id]
-            # the quantified-formula checker is the one that calls modelcheck
-            if 'modelcheck' in ast.unparse(f.node):
-                quant = f
-    if quant is None:
+
+    def callees(f):
+        return [mod.funcs[n.func.id] for n in ast.walk(f.node)
+                if isinstance(n, ast.Call) and isinstance(n.func, ast.Name)
+                and n.func.id in mod.funcs]
+
+    def delegates(f):
+        return any(isinstance(n, ast.Call) and
+                   isinstance(n.func, ast.Attribute) and
+                   n.func.attr == 'modelcheck' for n in ast.walk(f.node))
+    elims = []
+    for f in callees(entry):
+        if f in callees(f) and f not in elims:
+            elims.append(f)
+    if len(elims) != 1:
+        raise Inconclusive('R-CTLS-1', 'eliminator not found (self-recursive '
+                           'callees of the entry: %s)' % [
+                               f.short() for f in elims], entry.where())
+    elim = elims[0]
+    reach, todo = [], [elim]
+    while todo:
+        f = todo.pop()
+        if f in reach:
+            continue
+        reach.append(f)
+        todo.extend(callees(f))
+    quants = [f for f in reach if f is not elim and f is not entry and
+              delegates(f)]
+    if len(quants) != 1:
         raise Inconclusive('R-CTLS-1', 'quantified-formula checker not '
-                           'found', elim.where())
-    return mod, entry, elim, quant
+                           'found (%s)' % [f.short() for f in quants],
+                           elim.where())
+    return mod, entry, elim, quants[0]
 
 
 class _ElimHooks(TemplateHooks, GraphHooks):
